@@ -67,13 +67,16 @@ def tau_of(regions, ids):
 # ---------------------------------------------------------------------------------------------
 
 
-def paveba_reference(W, eps, regions, before, after, kind):
+def paveba_reference(W, eps, regions, before, after, kind, rect_shift=None):
     """returns dict with stage-wise three-valued expectations and observations"""
     S0, P0, U0 = set(before["S"]), set(before["P"]), set(before["U"])
     S2, P2, U2 = set(after["S"]), set(after["P"]), set(after["U"])
     D_obs = S0 - (S2 | P2)
     alpha = oracles.cone_alpha_vec(W)
-    slackP = alpha * eps  # rect: used as an objective-space shift (as passed); ell: per facet
+    # ellipsoids: per-facet allowance alpha_n*eps.  rectangles: the objective-space shift the algorithm
+    # itself passes (its `cone_alpha_eps`); whether that shift MEANS alpha*eps per facet is decided
+    # end-to-end by C01 and by C10, not here (C03 is about when the test is applied).
+    slackP = alpha * eps if (kind == "ell" or rect_shift is None) else np.asarray(rect_shift, float)
     A0 = S0 | U0
     ids = sorted(A0 | P0)
     tau = tau_of(regions, ids)
